@@ -452,6 +452,8 @@ def run(ctx):
             also.setdefault(index[x], []).append(k)
     import collections
     import sys
+    sys.stderr.write("C37: generated %d documents (%d distinct) by kind %s\n" % (
+        len(docs), len(uniq), dict(collections.Counter(meta[k][0] for k, _ in uniq))))
     only = os.environ.get("C37_ONLY")            # debugging aid: restrict to document kinds with this prefix
     if only:
         uniq = [(k, x) for k, x in uniq if any(meta[kk][0].startswith(only) for kk in [k] + also.get(k, []))]
